@@ -41,12 +41,14 @@ import (
 	"github.com/oasisprotocol/oasis-core/go/common/quantity"
 	"github.com/oasisprotocol/oasis-core/go/consensus/api/transaction"
 	beaconState "github.com/oasisprotocol/oasis-core/go/consensus/cometbft/apps/beacon/state"
+	consensusState "github.com/oasisprotocol/oasis-core/go/consensus/cometbft/apps/consensus/state"
 	registryState "github.com/oasisprotocol/oasis-core/go/consensus/cometbft/apps/registry/state"
 	stakingState "github.com/oasisprotocol/oasis-core/go/consensus/cometbft/apps/staking/state"
 	"github.com/oasisprotocol/oasis-core/go/consensus/cometbft/crypto"
 	registry "github.com/oasisprotocol/oasis-core/go/registry/api"
 	staking "github.com/oasisprotocol/oasis-core/go/staking/api"
 	"github.com/oasisprotocol/oasis-core/go/storage/mkvs"
+	"github.com/oasisprotocol/oasis-core/go/upgrade/migrations"
 
 	"verif/sim/core"
 )
@@ -72,13 +74,16 @@ type c17Snap struct {
 	epoch  beacon.EpochTime
 	debond beacon.EpochTime
 	bypass bool
-	ents   map[signature.PublicKey]*c17EntRec
+	// feature261: the consensus feature version is at least 26.1 (below it the registry keeps its
+	// legacy behaviour of never removing a runtime's previous owner from the runtime-by-entity index).
+	feature261 bool
+	ents       map[signature.PublicKey]*c17EntRec
 	nodes  map[signature.PublicKey]*c17NodeRec
 	rts    map[common.Namespace]*c17RtRec
 }
 
 func (sn *c17Snap) clone() *c17Snap {
-	c := &c17Snap{height: sn.height, epoch: sn.epoch, debond: sn.debond, bypass: sn.bypass,
+	c := &c17Snap{height: sn.height, epoch: sn.epoch, debond: sn.debond, bypass: sn.bypass, feature261: sn.feature261,
 		ents: map[signature.PublicKey]*c17EntRec{}, nodes: map[signature.PublicKey]*c17NodeRec{}, rts: map[common.Namespace]*c17RtRec{}}
 	for k, v := range sn.ents {
 		c.ents[k] = v
@@ -160,6 +165,11 @@ func (o *c17Oracle) read(s *Sim, tree mkvs.Tree, h int64) *c17Snap {
 		core.Harnessf("c17: staking parameters: %v", err)
 	}
 	sn.debond, sn.bypass = sp.DebondingInterval, sp.DebugBypassStake
+	cp, err := consensusState.NewImmutableState(tree).ConsensusParameters(ctx)
+	if err != nil {
+		core.Harnessf("c17: consensus parameters: %v", err)
+	}
+	sn.feature261 = cp.IsFeatureVersion(migrations.Version261)
 	st := registryState.NewImmutableState(tree)
 	ses, err := st.SignedEntities(ctx)
 	if err != nil {
@@ -559,11 +569,17 @@ func (o *c17Oracle) replay(s *Sim, h int64, pre, post *c17Snap, txs []*BuiltTx, 
 		}
 		method := string(d.tx.Method)
 		if !vd.authorised {
-			return c17Viol("unauthorised-accepted", "unauthorised-accepted "+method+" "+vd.why,
+			return c17Viol("unauthorised-accepted "+vd.why, "unauthorised-accepted "+method+" "+vd.why,
 				fmt.Sprintf("height %d: %s succeeded (code 0) although the authority rule is not met: %s\nearlier in this block: %s", h, desc, vd.why, strings.Join(log, "; ")))
 		}
 		if !vd.admissible {
-			return c17Viol("forbidden-accepted", "forbidden-accepted "+method+" "+c17FpReason(vd.whyNot),
+			kind, fp := "forbidden-accepted "+strings.Fields(vd.whyNot)[0], "forbidden-accepted "+method+" "+vd.whyNot
+			if strings.Contains(vd.whyNot, "node-id") {
+				// A node identity key used as another node's consensus/P2P/TLS/VRF key (or the
+				// reverse): kept apart from sub-key collisions, which the registry's key map covers.
+				kind, fp = "node-id-as-sub-key", "node-id-as-sub-key accepted"
+			}
+			return c17Viol(kind, fp,
 				fmt.Sprintf("height %d: %s succeeded (code 0) although the property forbids it: %s\nearlier in this block: %s", h, desc, vd.whyNot, strings.Join(log, "; ")))
 		}
 		if vd.apply != nil {
@@ -619,9 +635,6 @@ func (o *c17Oracle) replay(s *Sim, h int64, pre, post *c17Snap, txs []*BuiltTx, 
 	return nil
 }
 
-// c17FpReason drops the slot detail that varies between runs only where it does not matter.
-func c17FpReason(r string) string { return r }
-
 func c17RawE(r *c17EntRec, ok bool) []byte {
 	if !ok || r == nil {
 		return nil
@@ -664,7 +677,7 @@ func c17Diff(what, name string, want, got, before []byte, h int64, explain strin
 	default:
 		how = "changed"
 	}
-	return c17Viol("unexplained-change", "unexplained-change "+what+" "+how,
+	return c17Viol("unexplained-change "+what+" "+how, "unexplained-change "+what+" "+how,
 		fmt.Sprintf("height %d: %s record %s: %s - the committed record differs from what the successful authorised transactions of the block and epoch processing explain\n  committed: %x\n  model:     %x\n  previous:  %x\n%s", h, what, name, how, c17Trunc(got), c17Trunc(want), c17Trunc(before), explain))
 }
 
@@ -750,7 +763,7 @@ func (o *c17Oracle) checkIndexes(s *Sim, tree mkvs.Tree, sn *c17Snap) *core.Viol
 		name := o.ss.nameOf(id)
 		got, err := st.Node(ctx, id)
 		if err != nil || !got.ID.Equal(id) {
-			return c17Viol("index", "index node-not-found-by-id", fmt.Sprintf("height %d: node %s is listed but Node(id) fails: %v", h, name, err))
+			return c17Viol("index node-not-found-by-id", "index node-not-found-by-id", fmt.Sprintf("height %d: node %s is listed but Node(id) fails: %v", h, name, err))
 		}
 		for _, slot := range []int{c17SlotConsensus, c17SlotP2P, c17SlotTLS, c17SlotVRF, c17SlotNode} {
 			k := c17GetKey(n, slot)
@@ -764,10 +777,10 @@ func (o *c17Oracle) checkIndexes(s *Sim, tree mkvs.Tree, sn *c17Snap) *core.Viol
 			m, err := st.NodeBySubKey(ctx, k)
 			switch {
 			case err != nil:
-				return c17Viol("index", "index node-not-found-by-current-"+c17SlotNames[slot]+"-key",
+				return c17Viol("index node-not-found-by-current-"+c17SlotNames[slot]+"-key", "index node-not-found-by-current-"+c17SlotNames[slot]+"-key",
 					fmt.Sprintf("height %d: registered node %s is not found under its current %s key %s (%s): NodeBySubKey: %v", h, name, c17SlotNames[slot], k, o.ss.nameOf(k), err))
 			case !m.ID.Equal(id):
-				return c17Viol("index", "index current-"+c17SlotNames[slot]+"-key-resolves-to-other-node",
+				return c17Viol("index current-"+c17SlotNames[slot]+"-key-resolves-to-other-node", "index current-"+c17SlotNames[slot]+"-key-resolves-to-other-node",
 					fmt.Sprintf("height %d: the current %s key %s (%s) of node %s resolves to node %s", h, c17SlotNames[slot], k, o.ss.nameOf(k), name, o.ss.nameOf(m.ID)))
 			}
 			s.St.Inc("probe.c17.current_keys_checked")
@@ -775,7 +788,7 @@ func (o *c17Oracle) checkIndexes(s *Sim, tree mkvs.Tree, sn *c17Snap) *core.Viol
 		ck := n.Consensus.ID
 		addr := []byte(crypto.PublicKeyToCometBFT(&ck).Address())
 		if m, err := st.NodeByConsensusAddress(ctx, addr); err != nil || !m.ID.Equal(id) {
-			return c17Viol("index", "index node-not-found-by-consensus-address", fmt.Sprintf("height %d: node %s is not found under its consensus address: %v", h, name, err))
+			return c17Viol("index node-not-found-by-consensus-address", "index node-not-found-by-consensus-address", fmt.Sprintf("height %d: node %s is not found under its consensus address: %v", h, name, err))
 		}
 		byEntity[n.EntityID] = append(byEntity[n.EntityID], id)
 		if _, ok := sn.ents[n.EntityID]; !ok {
@@ -817,7 +830,7 @@ func (o *c17Oracle) checkIndexes(s *Sim, tree mkvs.Tree, sn *c17Snap) *core.Viol
 			if len(o.keyHolders[k]) > 0 {
 				what = "a historical key"
 			}
-			return c17Viol("index", "index stale-key-resolves-to-node",
+			return c17Viol("index stale-key-resolves-to-node", "index stale-key-resolves-to-node",
 				fmt.Sprintf("height %d: %s, %s (%s), resolves to node %s, whose current keys do not include it", h, what, k, o.ss.nameOf(k), o.ss.nameOf(m.ID)))
 		}
 		if len(o.keyHolders[k]) > 0 {
@@ -846,7 +859,7 @@ func (o *c17Oracle) checkIndexes(s *Sim, tree mkvs.Tree, sn *c17Snap) *core.Viol
 	for _, e := range c17SortedPKs(entIDs) {
 		got, err := st.GetEntityNodes(ctx, e)
 		if err != nil {
-			return c17Viol("index", "index nodes-by-entity-dangling", fmt.Sprintf("height %d: GetEntityNodes(%s): %v", h, o.ss.nameOf(e), err))
+			return c17Viol("index nodes-by-entity-dangling", "index nodes-by-entity-dangling", fmt.Sprintf("height %d: GetEntityNodes(%s): %v", h, o.ss.nameOf(e), err))
 		}
 		var gl, wl []string
 		for _, n := range got {
@@ -858,15 +871,22 @@ func (o *c17Oracle) checkIndexes(s *Sim, tree mkvs.Tree, sn *c17Snap) *core.Viol
 		sort.Strings(gl)
 		sort.Strings(wl)
 		if strings.Join(gl, ",") != strings.Join(wl, ",") {
-			return c17Viol("index", "index nodes-by-entity-mismatch", fmt.Sprintf("height %d: entity %s: nodes-by-entity index lists [%s] but the registered nodes naming it are [%s]", h, o.ss.nameOf(e), strings.Join(gl, ","), strings.Join(wl, ",")))
+			return c17Viol("index nodes-by-entity-mismatch", "index nodes-by-entity-mismatch", fmt.Sprintf("height %d: entity %s: nodes-by-entity index lists [%s] but the registered nodes naming it are [%s]", h, o.ss.nameOf(e), strings.Join(gl, ","), strings.Join(wl, ",")))
 		}
 		has, err := st.HasEntityNodes(ctx, e)
 		if err != nil || has != (len(wl) > 0) {
-			return c17Viol("index", "index has-entity-nodes-mismatch", fmt.Sprintf("height %d: entity %s: HasEntityNodes=%v (%v) but it has %d registered nodes", h, o.ss.nameOf(e), has, err, len(wl)))
+			return c17Viol("index has-entity-nodes-mismatch", "index has-entity-nodes-mismatch", fmt.Sprintf("height %d: entity %s: HasEntityNodes=%v (%v) but it has %d registered nodes", h, o.ss.nameOf(e), has, err, len(wl)))
 		}
 		hasRt, err := st.HasEntityRuntimes(ctx, e)
+		if err == nil && hasRt && !rtByEntity[e] && !sn.feature261 {
+			// Legacy behaviour below feature version 26.1 (kept for consensus compatibility): a
+			// runtime's previous owner stays in the index. The direction the property needs
+			// (an owner is always indexed) is still checked.
+			s.St.Inc("probe.c17.legacy_runtime_owner_index_keeps_previous_owner")
+			continue
+		}
 		if err != nil || hasRt != rtByEntity[e] {
-			return c17Viol("index", "index runtimes-by-entity-mismatch", fmt.Sprintf("height %d: entity %s: HasEntityRuntimes=%v (%v) but runtimes naming it exist=%v", h, o.ss.nameOf(e), hasRt, err, rtByEntity[e]))
+			return c17Viol("index runtimes-by-entity-mismatch", "index runtimes-by-entity-mismatch", fmt.Sprintf("height %d: entity %s: HasEntityRuntimes=%v (%v) but runtimes naming it exist=%v", h, o.ss.nameOf(e), hasRt, err, rtByEntity[e]))
 		}
 	}
 	s.St.Inc("probe.c17.index_checks")
@@ -1006,7 +1026,7 @@ func (o *c17Oracle) checkClaims(s *Sim, tree mkvs.Tree, sn *c17Snap) *core.Viola
 		}
 		for _, c := range wk {
 			if _, ok := got[staking.StakeClaim(c)]; !ok {
-				mine = c17Viol("claims", "claims missing "+c17ClaimClass(c), fmt.Sprintf("height %d: account %s lacks the stake claim %s implied by the current registrations; recorded claims: %v", h, a, c, gk))
+				mine = c17Viol("claims-missing", "claims-missing "+c17ClaimClass(c), fmt.Sprintf("height %d: account %s lacks the stake claim %s implied by the current registrations; recorded claims: %v", h, a, c, gk))
 				break
 			}
 		}
@@ -1015,7 +1035,7 @@ func (o *c17Oracle) checkClaims(s *Sim, tree mkvs.Tree, sn *c17Snap) *core.Viola
 		}
 		for _, c := range gk {
 			if _, ok := w[c]; !ok {
-				mine = c17Viol("claims", "claims stale "+c17ClaimClass(c), fmt.Sprintf("height %d: account %s records the stake claim %s, which no current registration implies; implied claims: %v", h, a, c, wk))
+				mine = c17Viol("claims-stale", "claims-stale "+c17ClaimClass(c), fmt.Sprintf("height %d: account %s records the stake claim %s, which no current registration implies; implied claims: %v", h, a, c, wk))
 				break
 			}
 		}
@@ -1025,7 +1045,7 @@ func (o *c17Oracle) checkClaims(s *Sim, tree mkvs.Tree, sn *c17Snap) *core.Viola
 		for _, c := range wk {
 			gt := c17ThresholdStrings(got[staking.StakeClaim(c)])
 			if strings.Join(gt, ",") != strings.Join(w[c], ",") {
-				mine = c17Viol("claims", "claims thresholds "+c17ClaimClass(c), fmt.Sprintf("height %d: account %s claim %s records thresholds %v but the current registrations imply %v", h, a, c, gt, w[c]))
+				mine = c17Viol("claims-thresholds", "claims-thresholds "+c17ClaimClass(c), fmt.Sprintf("height %d: account %s claim %s records thresholds %v but the current registrations imply %v", h, a, c, gt, w[c]))
 				break
 			}
 		}
@@ -1064,9 +1084,8 @@ func (o *c17Oracle) checkClaims(s *Sim, tree mkvs.Tree, sn *c17Snap) *core.Viola
 		mine.Detail += fmt.Sprintf("\n(the in-tree recomputation agrees: %v)", second)
 		return mine
 	case mine != nil:
-		mine.Detail += "\n(the in-tree recomputation reports no problem)"
-		// The in-tree check does not look at accounts without implied claims; a stale claim on
-		// such an account is only seen by the harness's own recomputation.
+		mine.Detail += "\n(the in-tree recomputation reports no problem: the two recomputations disagree)"
+		mine.Fingerprint += " (in-tree check silent)"
 		return mine
 	case second != nil:
 		return c17Viol("claims-second-opinion", "claims-second-opinion-disagrees", fmt.Sprintf("height %d: the harness's recomputation of the stake claims matches the accounts but the in-tree recomputation does not: %v", h, second))
